@@ -378,6 +378,56 @@ def run_polars(rep, tier, rng):
             rep.property_failure(case, f"polars: try_coerce leaked {kind[5:]}", region="K_C10_polars:leak")
 
 
+def run_polars_container(rep):
+    """coercion requested on a polars DataFrameSchema / Column, at every validation depth that looks at the data: a value
+    that cannot be converted is reported through the documented channel (DATATYPE_COERCION with exactly the uncoercible
+    elements as failure cases), never as a polars exception"""
+    try:
+        import polars as pl
+        import pandera.polars as pap
+        from pandera.config import ValidationDepth, config_context
+    except Exception:  # noqa: BLE001
+        return
+    bad = ["1", "x", "2.5", "7"]
+    want = sorted(["x", "2.5"])
+    for depth in (None, ValidationDepth.SCHEMA_AND_DATA, ValidationDepth.DATA_ONLY):
+        for where in ("column", "schema", "stand-alone Column"):
+            for lazy in (False, True):
+                case = {"kind": "polars-container", "depth": getattr(depth, "name", None), "coerce_at": where, "lazy": lazy}
+                col = pap.Column(pl.Int64, coerce=where != "schema", name="a")
+                schema = col if where == "stand-alone Column" else pap.DataFrameSchema({"a": col}, coerce=where == "schema")
+                kw = {"validation_depth": depth} if depth is not None else {}
+                with warnings.catch_warnings():
+                    warnings.simplefilter("ignore")
+                    try:
+                        with config_context(**kw):
+                            schema.validate(pl.DataFrame({"a": bad}), lazy=lazy)
+                        outcome, fcs = "returned", None
+                    except (pap.errors.SchemaError, pap.errors.SchemaErrors) as e:
+                        outcome = type(e).__name__
+                        errs = e.schema_errors if hasattr(e, "schema_errors") else [e]
+                        fcs = []
+                        for x in errs:
+                            if x.reason_code.name == "DATATYPE_COERCION" and x.failure_cases is not None:
+                                fc = x.failure_cases
+                                fc = fc.collect() if hasattr(fc, "collect") else fc
+                                try:
+                                    fcs += [str(v) for v in fc["a"].to_list()]
+                                except Exception:  # noqa: BLE001
+                                    fcs = None
+                                    break
+                    except Exception as e:  # noqa: BLE001
+                        outcome, fcs = "leak:" + type(e).__name__, None
+                rep.evaluations += 1
+                rep.count(f"polars-container:{where}:{outcome.split(':')[0]}")
+                if outcome.startswith("leak") or outcome == "returned":
+                    rep.property_failure(case, f"polars {where} coercion of {bad} to Int64 at depth {case['depth']}: {outcome} "
+                                               "(a ParserError / DATATYPE_COERCION error naming 'x' and '2.5' is documented)")
+                elif fcs is not None and sorted(fcs) != want:
+                    rep.property_failure(case, f"polars {where} coercion at depth {case['depth']}: failure cases {sorted(fcs)}, the "
+                                               f"uncoercible elements are {want}")
+
+
 def run(tier, replay=None):
     rep = Report(PROP, tier)
     warm_up_backends()
@@ -400,6 +450,7 @@ def run(tier, replay=None):
     run_registry(rep, tier, rng)
     run_parametrised(rep, tier, rng)
     run_polars(rep, tier, rng)
+    run_polars_container(rep)
     return rep.finish(
         rule="modelled targets int64 / float64 / str: object Series / Index / column over ints, floats, numeric and "
              "non-numeric strings, bools, nulls vs Lean's tryCoerce (values or failing positions); every registered dtype of "
